@@ -163,6 +163,23 @@ def r3_linking(chk: Check):
     chk.require(all(g.dominates(n, x) for x in aw + rets), chk.fkey(f, "link before any await / return"), "the job must be linked before the first await and before every return of aio_submit", loc)
     gs = [(src(t.ast), pol) for t, pol in g.guards(n) if t.kind == "test" and "is_symlink" not in src(t.ast)]
     chk.require(not gs, chk.fkey(f, "link unconditional"), f"the index link is created only under {gs}", loc)
+    # a job submitted again (after a failure, or by the next run of the experiment) already has its link: it is replaced, not created blindly
+    # (symlink_to raises FileExistsError, aio_submit dies before its bookkeeping and the experiment never ends)
+    target = rd.canon(c.func.value, n)
+    freed = []
+    for x in g.live:
+        for cc in x.calls():
+            if tail(cc) == "unlink" and isinstance(cc.func, ast.Attribute) and rd.canon(cc.func.value, x) == target:
+                freed.append(x)
+        if x.kind == "branch" and x.extra["test"].kind == "test" and x.extra["polarity"] is False:
+            t = x.extra["test"]
+            e = t.ast
+            if isinstance(e, ast.Call) and isinstance(e.func, ast.Attribute) and e.func.attr in ("is_symlink", "exists") and not e.args and rd.canon(e.func.value, t) == target:
+                freed.append(x)
+            elif isinstance(e, ast.Call) and dotted(e.func) in ("os.path.lexists", "os.path.islink") and e.args and rd.canon(e.args[0], t) == target:
+                freed.append(x)
+    chk.require(bool(freed) and g.on_every_path(freed, end=n), chk.fkey(f, "existing link replaced"),
+                "the index link is created without removing the link left by an earlier submission of the same job", loc)
 
 
 RMTREE_SITES = {
